@@ -4,7 +4,9 @@ from pyvc.spec import contract, specfn, lemma
 U = 'fast_ticc.admm.unique_values.'
 
 # row-major rank of (r, c), r <= c, in the upper triangle of an n x n matrix
-specfn('tri_rank', "lambda r, c, n: r*n - (r*(r+1))//2 + c", sig=(['int', 'int', 'int'], 'int'), uf=True)
+specfn('tri_rank', "lambda r, c, n: r*n - (r*(r+1))//2 + c", sig=(['int', 'int', 'int'], 'int'), uf=True,
+       # derived (division-free) form, proved from the definition in lemmas/l_index.py: r(r+1) is even
+       axioms=["forall(lambda r, c, n: 2*tri_rank(r, c, n) == 2*r*n - r*(r+1) + 2*c)"])
 
 contract(U + '_size_including_this_row', props=['C11'],
          params=dict(r='int', uncompressed_size='int'), returns='real',
